@@ -1027,6 +1027,12 @@ def t_cls_body(scenario):
             elif scenario == "extend_twice":
                 B, ob = _class_with(w, I, "B", [fn["b1"], fn["b2"]])
                 bases, base_ovlds = [B], [ob]
+            elif scenario == "prepare_three":
+                B1, o1 = _class_with(w, I, "B1", [fn["b1"]])
+                B2, o2 = _class_with(w, I, "B2", [fn["c1"]])
+                o2.f["dispatch"].attrs["_extend_super"] = True
+                B3 = BaseCls("class:B3", perform=fn["b2"])  # a plain (not overloaded) definition in the third base
+                bases, base_ovlds = [B1, B2, B3], [o1, o2]
             elif scenario in ("extend_two", "prepare_two", "prepare_deep"):
                 B1, o1 = _class_with(w, I, "B1", [fn["b1"]])
                 B2, o2 = _class_with(w, I, "B2", [fn["c1"]])
@@ -1046,7 +1052,7 @@ def t_cls_body(scenario):
         def body(I, bases, base_ovlds, fn, before):
             if scenario.startswith("prepare"):
                 d = I.call_repo("core:OvldMC.__prepare__", [Tok("OvldMC"), "Sub", tuple(bases)], {})
-                want = [fn["b1"], fn["c1"]]
+                want = [fn["b1"], fn["c1"]] + ([fn["b2"]] if scenario == "prepare_three" else [])
             else:
                 d = ClsDictObj(tuple(bases))
                 if scenario == "same_name":
@@ -1084,7 +1090,7 @@ def t_cls_body(scenario):
         return w, thunk, {"scenario": scenario}
 
     return build
-CLS_SCENARIOS = ("same_name", "extend_one", "extend_twice", "extend_two", "shadow", "prepare_two", "prepare_deep")
+CLS_SCENARIOS = ("same_name", "extend_one", "extend_twice", "extend_two", "shadow", "prepare_two", "prepare_deep", "prepare_three")
 
 
 def t_copy_variant(gname, op, linkback):
